@@ -68,6 +68,8 @@ class Check(PropCheck):
             for i, nd in enumerate(t.nodes()):
                 if i > 0:
                     nd.length = unit * rng.randint(0 if rng.random() < 0.2 else 1, 7)
+                    if j % 3 == 0 and rng.random() < 0.6:
+                        nd.length = 0.0          # many exact zeros: distinct leaves at distance exactly 0
             ops = ['new'] + gen.build_ops(t) + ['dump', 'dm', 'dmr', 'get_leaves']
             sz = len(t.nodes()) + 1
             for a in range(sz):
